@@ -466,6 +466,7 @@ func init() {
 		MinNontrivial: 2000,
 		Streams: []Stream{
 			{Name: "sorted", N: func(c *Ctx) int { return tierN(c, 3000, 60000) }, Run: c13Run},
+			{Name: "joins", N: func(c *Ctx) int { return joinN() }, Run: joinModel("C13", true), Exhaustive: true},
 			{Name: "invalid", N: func(c *Ctx) int { return tierN(c, 3000, 40000) }, Run: c13Invalid},
 		},
 	})
